@@ -60,6 +60,7 @@ type Tape struct {
 	Log   []Drawn
 
 	lastGood  int
+	inRead    int
 	bound     uint32
 	announced bool
 	wordsIn   int // words drawn since the last announcement
@@ -140,7 +141,9 @@ func Install(t *Tape) {
 		installed = true
 	}
 	cur = t
-	inRead = 0
+	if t != nil {
+		t.inRead = 0
+	}
 }
 
 // New makes a tape over a source.
@@ -160,17 +163,18 @@ func (t *Tape) EndCall() { t.announced = false; t.wordsIn = 0 }
 // InRead reports whether a tape is currently serving a Read call of the code
 // under test (the harness must not call back into the library then: the
 // library may hold a lock around its read).
-func InRead() bool { return inRead > 0 }
-
-var inRead int
+func InRead() bool {
+	t := current()
+	return t != nil && t.inRead > 0
+}
 
 func (t *Tape) fill() error {
 	if t.Aborted {
 		panic(Abort{})
 	}
-	inRead++
+	t.inRead++
 	w, err := t.Src.NextWord(t.bound, t.announced, t.wordsIn > 0)
-	inRead--
+	t.inRead--
 	if err != nil {
 		if err == ErrDry {
 			t.Dry = true
